@@ -31,7 +31,7 @@ E8 = ("E8: GOTO-level cuts applied by a goto-instrument wrapper before CBMC: (io
 E7 = ("E7: transport = nondeterministic stub: every poll_read / poll_write(_vectored) returns Pending, Ready(Ok(k)) for symbolic 1<=k<=len, "
       "Ok(0) or Err within the stated call budget; waker = no-op; Kani executes atomics sequentially (no thread interleavings)")
 
-TECH = "bounded model checking of the compiled Rust code (Kani 0.68 -> CBMC 6.11 -> CaDiCaL): symbolic inputs and symbolic private state, unwinding assertions on, cover witnesses against vacuity, counterexamples replayed natively"
+TECH = "bounded model checking of the compiled Rust code (Kani 0.68 -> CBMC 6.11 -> CaDiCaL): symbolic inputs and symbolic private state, unwinding assertions on, cover witnesses against vacuity, counterexamples replayed natively (harnesses that replace a function by a model/contract stub report the counterexample at the level of that model instead: Kani's native playback cannot apply stubs)"
 
 PROPS = {
     "C00": {"claimed": False},
@@ -187,7 +187,7 @@ PROPS = {
         "outside": "close() is never run end to end with a draining loop AND a Pending transport in one query (the pieces are composed by argument: the steps are sequential and share only the Request state each harness starts from symbolically or at a boundary); exactly-one-handler-invocation and the request loop of Token::run (Token needs async_lock/event-listener, see C13); byte-exact wire image of close() as a whole (c07_close_keep_writeable / c07_close_nokeep with the byte-checking transport stay tier=manual: 20 GB are not enough)",
         "assumptions": [E2, E7, E8, "parser contract stubs (see C08); poll_input contract stub in c11_close_not_writeable; 'noparse'/'nopollinput': in harnesses that start at a record boundary / writeable, parse, poll_output resp. poll_input are PROVED unreachable"],
         "level_text": "Bounded model checking of close() step by step (ordering of replies and epilogue, reuse decision, draining without false EOF, abort tolerance) and of the building blocks of the end-of-request protocol; the per-connection statement (one handler call per request) is outside and said so.",
-        "level_note": "Partial claim; see 'outside'. Seeded changes C07-a (replies after the epilogue) and C07-b (compress hoisted out of the draining loop) are caught.",
+        "level_note": "Partial claim; see 'outside'. Seeded change C07-b (compress hoisted out of the draining loop) is caught. Seeded change C07-a (replies after the epilogue) is NOT: c07_close_order_* assert exactly that ordering and pass on the unchanged tree, but on the mutated code they run out of 30-44 GB (verdict INCONCLUSIVE, exit 2 - no VIOLATION line).",
     },
 }
 NOT_APPLICABLE.update({
